@@ -1,2 +1,59 @@
-From SV Require Import Dir.
-Theorem C20_placeholder : True. Proof. exact I. Qed.
+(* C20 - Asset lookup: the named file if it exists, else a pattern match, else None.  Statements only. *)
+From Coq Require Import List ZArith NArith Bool.
+From SV Require Import Sx Str Simfile Dir Generated.Tables Proofs.DirFacts.
+Import ListNotations.
+Open Scope N_scope.
+
+(* the answer is the named file (found ignoring case in its containing directory), else an entry of the
+   directory that matches the kind's definition, else nothing - and then no entry matches *)
+Theorem C20_lookup : forall kind listing specified,
+  match asset_lookup kind listing specified with
+  | ASpecified item => exists filename cl, specified = Some (filename, Some cl) /\ In item cl /\ lower item = lower filename
+  | APattern item => exists d, find_def kind Tables.asset_definitions = Some d /\ In item listing /\ def_matches d item = Some true
+  | ANoAsset => exists d, find_def kind Tables.asset_definitions = Some d /\ forall x, In x listing -> def_matches d x = Some false
+  | AUnm => True
+  end.
+Proof. exact asset_lookup_spec. Qed.
+Print Assumptions C20_lookup.
+
+Theorem C20_specified_wins : forall kind listing filename cl item, find_ci cl filename = Some item ->
+  asset_lookup kind listing (Some (filename, Some cl)) = ASpecified item.
+Proof. exact specified_wins. Qed.
+Print Assumptions C20_specified_wins.
+
+(* the pack banner: extension priority over the images in the pack, then the sibling with the pack's name, then none *)
+Theorem C20_pack_banner : forall listing name siblings,
+  match pack_banner listing name siblings with
+  | BInside x => exists pre e post, Tables.ext_image = pre ++ e :: post /\ first_with_ext listing e = Some x /\
+                                    (forall e', In e' pre -> first_with_ext listing e' = None)
+  | BBeside y => first_by_priority listing Tables.ext_image = None /\ exists e, In e Tables.ext_image /\ y = name ++ e /\ mem_str y siblings = true
+  | BNone => first_by_priority listing Tables.ext_image = None /\ forall e, In e Tables.ext_image -> mem_str (name ++ e) siblings = false
+  end.
+Proof. exact pack_banner_spec. Qed.
+Print Assumptions C20_pack_banner.
+
+Theorem C20_image_priority : Tables.ext_image = [[46;112;110;103]; [46;106;112;103]; [46;106;112;101;103]; [46;103;105;102]; [46;98;109;112]].
+Proof. exact image_priority. Qed.
+
+(* the documented patterns, read from the code's table and parsed by the model *)
+Definition pats (kind : str) : list pat :=
+  match find_def kind Tables.asset_definitions with Some (_, ps, _, _) => map parse_preset ps | None => [] end.
+Definition w (s : list N) : str := s.
+Theorem C20_documented_patterns :
+  pats (w [66;65;78;78;69;82]) = [PContains (w [98;97;110;110;101;114]); PSuffix (w [98;110])] /\
+  pats (w [66;65;67;75;71;82;79;85;78;68]) = [PContains (w [98;97;99;107;103;114;111;117;110;100]); PSuffix (w [98;103])] /\
+  pats (w [67;68;84;73;84;76;69]) = [PContains (w [99;100;116;105;116;108;101])] /\
+  pats (w [74;65;67;75;69;84]) = [PPrefix (w [106;107;95]); PContains (w [106;97;99;107;101;116]); PContains (w [97;108;98;117;109;97;114;116])] /\
+  pats (w [67;68;73;77;65;71;69]) = [PSuffix (w [45;99;100])] /\
+  pats (w [68;73;83;67]) = [PSuffix (w [32;100;105;115;99]); PSuffix (w [32;116;105;116;108;101])] /\
+  match find_def (w [77;85;83;73;67]) Tables.asset_definitions with Some (_, [], exts, true) => exts = Tables.ext_audio | _ => False end.
+Proof. vm_compute. repeat split; reflexivity. Qed.
+
+Example C20_example :
+  let listing := [w [115;111;110;103;46;115;109]; w [66;97;110;110;101;114;45;66;71;46;112;110;103]; w [120;46;79;71;71]] in
+  asset_lookup (w [66;65;67;75;71;82;79;85;78;68]) listing None = APattern (w [66;97;110;110;101;114;45;66;71;46;112;110;103]) /\
+  asset_lookup (w [77;85;83;73;67]) listing None = APattern (w [120;46;79;71;71]) /\
+  asset_lookup (w [74;65;67;75;69;84]) listing None = ANoAsset /\
+  asset_lookup (w [74;65;67;75;69;84]) listing (Some (w [88;46;111;103;103], Some listing)) = ASpecified (w [120;46;79;71;71]) /\
+  pack_banner [w [98;46;106;112;103]; w [97;46;80;78;71]] (w [112]) [] = BInside (w [97;46;80;78;71]).
+Proof. vm_compute. repeat split; reflexivity. Qed.
